@@ -412,6 +412,65 @@ def run_e2e(ctx, cases=None):
     ctx.traces_vs_impl += n
 
 
+def run_redirects(ctx):
+    """every connection of a redirect chain is determined by ITS URL (the Location), not by the one before it: dial target,
+    TLS, request line and Host header of hop k follow from URL k (Spec.Url.classify on URL k)."""
+    import websocket
+    import websocket._handshake as HS
+    chains = [["ws://a.example/old?k=1", "ws://b.example:9000/new/feed?x=1"],
+              ["ws://a.example:81/p", "wss://a.example/p"],
+              ["wss://a.example/x;y?z", "ws://[::1]:8080/"],
+              ["ws://a.example/", "ws://b.example/b?1", "wss://c.example:444/c/d"],
+              ["ws://a.example/same", "ws://a.example/same"]]
+    runs, lspec = [], []
+    for chain in chains:
+        for to, so in SETTINGS[1:3]:
+            net = N.Net(addrs=["a"], redirects=chain[1:])
+            HS.CookieJar.jar.clear()
+            try:
+                with N.patched(net, {}):
+                    ws = websocket.WebSocket(sockopt=list(so))
+                    ws.connect(chain[0], timeout=to)
+                res = "connected" if ws.connected else "not-connected"
+            except Exception as e:  # noqa
+                res = common.canon_exc(e)
+            runs.append((chain, to, so, res, net))
+            lspec += ["s-parse-url " + hx(u) for u in chain]
+    out = common.run_driver(lspec)
+    k = 0
+    for chain, to, so, res, net in runs:
+        specs = out[k:k + len(chain)]
+        k += len(chain)
+        inp = {"op": "redirect-chain", "chain": chain, "timeout": to}
+        log = net.log
+        resolves = [e for e in log if e[0] == "resolve"]
+        ctx.case(key=("redir", str(chain), to), nontrivial=True, cls=f"redirect-chain:hops={len(chain)}",
+                 sample=dict(inp, trace=N.render_events(log)[:300]) if len(ctx.samples) < 12 else None)
+        if res != "connected" or len(resolves) != len(chain) or len(net.requests) != len(chain):
+            ctx.violate("url-determines-target", "redirect-chain-not-followed", inp, f"{len(chain)} connections, connected",
+                        f"{res}: {len(resolves)} resolutions, {len(net.requests)} requests", size=len(str(chain)))
+            continue
+        # split the log per hop at the resolver calls
+        starts = [i for i, e in enumerate(log) if e[0] == "resolve"] + [len(log)]
+        for hop, (url, s) in enumerate(zip(chain, specs)):
+            if not s.startswith("target "):
+                continue
+            th, tp, tr, ts = s.split(" ")[1:]
+            host, port, resource, secure = bytes.fromhex(th).decode(), int(tp), bytes.fromhex(tr).decode(), ts == "1"
+            seg = log[starts[hop]:starts[hop + 1]]
+            req = net.requests[hop].decode("latin1").split("\r\n")
+            hostport = (f"[{host}]" if ":" in host else host) + ("" if port in (80, 443) else f":{port}")
+            got = {"dial": (seg[0][1], seg[0][2]), "tls": bool([e for e in seg if e[0] == "tls"]), "request-line": req[0],
+                   "host-header": next((l for l in req if l.lower().startswith("host:")), "")}
+            want = {"dial": (host, port), "tls": secure, "request-line": f"GET {resource} HTTP/1.1", "host-header": f"Host: {hostport}"}
+            bad = [f for f in want if want[f] != got[f]]
+            if bad:
+                ctx.violate("url-determines-target", f"redirected-connection-uses-the-previous-url:{bad[0]}" if hop else f"first-hop:{bad[0]}", inp,
+                            f"hop {hop} ({url}): {want}", str(got), size=len(str(chain)))
+                break
+    ctx.traces_vs_impl += len(runs)
+
+
 def run_dispatcher(ctx):
     import websocket
     urls = ["ws://h/", "wss://h/", "wss://h:80/", "ws://h:443/", "wss://[::1]/p"]
@@ -478,6 +537,7 @@ def run(ctx):
     run_brackets(ctx)
     run_dial(ctx)
     run_e2e(ctx)
+    run_redirects(ctx)
     run_dispatcher(ctx)
 
 
